@@ -10,7 +10,8 @@ TRUST = ("TLC and the CommunityModules Json/IOUtils modules; rustc/cargo; serde,
 
 CHECKS = {
     "C01": ("routing", "6 C01", "TLC model check of Runtime.tla (bounded MC_Routing) + trace validation of the compiled corpus: "
-            "Encode/WrapperDecode events of every handler over all identifiers <= 4 (thorough 5) characters of {a,b,1,_}",
+            "Encode/WrapperDecode events of every handler over all identifiers <= 4 (thorough 5) characters of {a,b,1,_}; the contract-level "
+            "message judged as a message type of its kind (it accepts the message of every annotated method of every part)",
             "TLA+ spec + TLC, corpus compiled with the real macros, trace validation (Trace_Routing)"),
     "C02": ("routing", "6 C02", "TLC model check of the dispatch machine + validation of Deliver/Handler/Return events of every "
             "handler of the corpus through entry points and the multitest Contract impl",
@@ -29,7 +30,8 @@ CHECKS = {
             "entry_points macro in-process (verif-hook), incl. overrides and handlers declared in the opposite order; set of emitted entry points and "
             "per-function token hashes judged by TLC against Static.tla; forwarding: the compiled routing corpus (override programs O1-O7: context and "
             "outcome forwarded, an overridden kind reaches the user's function through the multitest impl) and the legacy reply programs L1/L2 "
-            "(without the replies feature every reply reaches the single reply method whole)",
+            "(without the replies feature every reply reaches the single reply method whole); the parameterless constructor of the generated "
+            "programs numbers the values it builds: every call through an entry point runs on a value built for that call",
             "TLA+ spec + TLC (exhaustive configuration space), in-process expansion, compiled corpora, trace validation"),
     "C13": ("static", "6 C13", "attribute placements over item/handler/helper/parameters for the three macros plus every annotated item of the "
             "repository's tests and examples; re-emitted item vs input skeleton and determinism (in-process and across processes) judged by TLC",
